@@ -16,3 +16,42 @@ def _(E, m, a, c0):
     if kind == 'Range': return z3.And(le(r.fields[0], x), lt(x, r.fields[1]))
     if kind == 'RangeFrom': return le(r.fields[0], x)
     return lt(x, r.fields[0])
+
+# ------------------------------------------------------------------ String as a byte sequence (concrete ASCII only: anything else is not encodable)
+def _ascii(E, v):
+    out = []
+    for b in v.fields:
+        bs = z3.simplify(b)
+        if not z3.is_int_value(bs): raise Missing('string model: symbolic byte')
+        out.append(bs.as_long())
+    return out
+@pattern(r'(?:std::string::)?String::(as_bytes|as_str|as_mut_str|into_bytes|into_boxed_str)|core::str::<impl str>::as_bytes|<(?:std::string::)?String as Deref(Mut)?>::deref(_mut)?|<(?:std::string::)?String as AsRef<.*>>::as_ref|<(?:std::string::)?String as Borrow<str>>::borrow')
+def _(E, m, a, c0): return a[0]
+@pattern(r'(?:std::string::)?String::from_utf8')
+def _(E, m, a, c0):
+    v = a[0]; bs = _ascii(E, v)
+    if all(b < 128 for b in bs): return ok(v)
+    return err(Adt('FromUtf8Error', None, [v]))
+@pattern(r'(?:std::string::)?FromUtf8Error::(into_bytes|as_bytes)')
+def _(E, m, a, c0):
+    e = E.deref(a[0]); return e.fields[0] if m.group(1) == 'into_bytes' else Ref(Cell(e.fields[0]))
+@pattern(r'(?:std::string::)?String::from_utf8_lossy')
+def _(E, m, a, c0):
+    v = E.deref(a[0]); bs = _ascii(E, v)
+    return Adt('Cow', 'Owned', [Seq([z3.IntVal(b if b < 128 else 0xFFFD) for b in bs])])
+@pattern(r'core::slice::<impl \[.*\]>::copy_from_slice|core::slice::<impl \[.*\]>::clone_from_slice')
+def _(E, m, a, c0):
+    dst = E.deref(a[0]); src = E.deref(a[1])
+    if len(dst.fields) != len(src.fields): raise Abort('copy_from_slice: length mismatch')
+    E.wr(a[0], Seq(list(src.fields))); return UNIT
+@pattern(r'<(?:std::string::)?String as Default>::default|(?:std::string::)?String::new')
+def _(E, m, a, c0): return Seq([])
+@pattern(r'<(?:std::string::)?String as PartialEq(<.*>)?>::(eq|ne)|<str as PartialEq>::(eq|ne)|<&str as PartialEq(<.*>)?>::(eq|ne)')
+def _(E, m, a, c0):
+    x, y = E.deref(a[0]), E.deref(a[1])
+    if isinstance(x, Opaque) or isinstance(y, Opaque):
+        if isinstance(x, Opaque) and isinstance(y, Opaque): r = z3.BoolVal(x.tag == y.tag)
+        else: raise Missing('string comparison with an opaque literal')
+    else: r = z3.BoolVal(_ascii(E, x) == _ascii(E, y))
+    ne = any(g == 'ne' for g in m.groups() if g)
+    return z3.Not(r) if ne else r
